@@ -1,0 +1,36 @@
+//go:build verif
+
+package core
+
+// Contracts for the transition algorithm (properties C17, C08, C09).
+// Comment-only file: compiled only under the "verif" build tag, contains no
+// code. The "//@" lines are read by govc.
+
+// The transitioner's fields are written only by this package's functions.
+//@ private transitioner
+
+// ------------------------------------------------------------------ C17
+// The parent walk. ppos(root, path, k) is the abstract position reached from
+// the path-based, no-follow open of the root by descending the first k
+// "/"-separated components of path, each through Directory.OpenDirectory
+// (single validated component, O_NOFOLLOW|O_DIRECTORY, relative to the handle
+// of the previous step). comp/ncomp are the abstract "/"-structure of a string
+// (trusted contract of strings.Split).
+
+// A "." component re-opens the directory it is applied to.
+//@ spec rec ppos(root, path, k) int = k <= 0 ? filesystem.rootpos(root) : (comp(path, k - 1) == "." ? ppos(root, path, k - 1) : filesystem.childpos(ppos(root, path, k - 1), comp(path, k - 1)))
+
+// The casing check only lists the directory.
+//@ func (*transitioner).nameExistsInDirectoryWithProperCase
+//@   modifies directory.exhausted
+
+//@ func (*transitioner).walkToParentAndComputeLeafName
+//@   requires t != nil
+//@   at call filesystem.OpenDirectory assert[rootopen] path != "" ==> arg0 == t.root && !arg1
+//@   at call (*Directory).OpenDirectory assert[descend] arg0 == parent && arg1 == comp(path, rangeindex) && rangeindex < ncomp(path) - 1
+//@   ensures[leaf] result2 == nil && path != "" ==> result1 == comp(path, ncomp(path) - 1)
+//@   ensures[parent] result2 == nil && path != "" ==> result0 != nil && filesystem.dpos(result0) == ppos(old(t.root), path, ncomp(path) - 1)
+//@   ensures[ok] result2 == nil ==> result0 != nil
+//@   ensures[failed] result2 != nil ==> result0 == nil
+//@   loop 1 invariant[parent] parent != nil && rangeindex < ncomp(path) - 1 && t.root == old(t.root)
+//@   loop 1 invariant[parent] filesystem.dpos(parent) == ppos(t.root, path, rangeindex + 1)
